@@ -20,7 +20,7 @@ let queries1 r o xs =
         let x0 = xa.(j) and x1 = xa.(j + 1) in
         for k = 0 to m do
           let x = if k = m then x1 else x0 +. (x1 -. x0) *. float_of_int k /. float_of_int m in
-          put_f (unres (interpolate fops o x))
+          put_f (unres (call1 fops o x))      (* the harness uses operator() here *)
         done
     | "K" -> let x = num r in
         let pts = [Float.pred x; x; Float.succ x] in
@@ -31,6 +31,23 @@ let queries1 r o xs =
         for k = 0 to 2 do List.iter (fun p -> put_f (unres (derivative fops o p (z_of_int k)))) pts done;
         put_f (unres (derivative fops o x (z_of_int 3)));
         put_f (unres (derivative fops o x (z_of_int 4)))
+    | q -> failwith ("unknown query " ^ q)
+  done
+
+let queries2 r o xa ya =
+  let nq = integer r in
+  for _ = 1 to nq do
+    match word r with
+    | "I" -> let x = num r in let y = num r in put_f (unres (interpolate2 fops o x y))
+    | "C" -> let i = integer r in let j = integer r in let m = integer r in
+        let x0 = xa.(i) and x1 = xa.(i + 1) and y0 = ya.(j) and y1 = ya.(j + 1) in
+        for a = 0 to m do
+          let x = if a = m then x1 else x0 +. (x1 -. x0) *. float_of_int a /. float_of_int m in
+          for b = 0 to m do
+            let y = if b = m then y1 else y0 +. (y1 -. y0) *. float_of_int b /. float_of_int m in
+            put_f (unres (call2 fops o x y))      (* operator() *)
+          done
+        done
     | q -> failwith ("unknown query " ^ q)
   done
 
@@ -146,6 +163,8 @@ let handler r =
               done
           | q -> failwith ("unknown query " ^ q)
         done
+    | "d1" -> queries1 r (unres (default1 fops)) [-1.0; 0.0; 1.0]
+    | "d2" -> let ax = [| -1.0; 0.0; 1.0 |] in queries2 r (unres (default2 fops)) ax ax
     | "s1" ->
         let cmds = session r
             (fun r -> let xd = num r in let fd = num r in let xs = list r in let ys = list r in
